@@ -1204,7 +1204,7 @@ def exit_reachable_under(fn, start, avoid, atom_value):
         succ = blk['succ']
         if blk.get('tc') is not None and len(succ) == 2 and None not in succ:
             atom, neg = cfg.branch_atom(b)
-            v = atom_value(atom) if is_node(atom) else None
+            v = eval3(atom, atom_value) if is_node(atom) else None
             if v is not None:
                 taken = v != neg
                 st.append(succ[0] if taken else succ[1])
@@ -1288,4 +1288,28 @@ def _eval_body(g, s, leaf, depth):
             return None
         br = s.get('then') if c else s.get('else')
         return _eval_body(g, br, leaf, depth + 1) if br is not None else None
+    return None
+
+
+def eval3(e, leaf):
+    """Three-valued truth value of a condition from the values of its operands (leaf(node) -> True/False/None):
+    !, && and || are evaluated with Kleene logic, so a join block that branches on a whole short-circuit expression
+    is decided whenever its operands decide it."""
+    e = strip_casts(e)
+    if not is_node(e):
+        return None
+    v = leaf(e)
+    if v is not None:
+        return v
+    if e['k'] == 'un' and e['op'] == '!':
+        x = eval3(e['e'], leaf)
+        return None if x is None else (not x)
+    if e['k'] == 'call' and e.get('opc') == '!' and e.get('args'):
+        x = eval3(e['args'][0], leaf)
+        return None if x is None else (not x)
+    if e['k'] == 'bin' and e['op'] in ('&&', '||'):
+        a, b = eval3(e['lhs'], leaf), eval3(e['rhs'], leaf)
+        if e['op'] == '&&':
+            return False if (a is False or b is False) else (None if (a is None or b is None) else True)
+        return True if (a is True or b is True) else (None if (a is None or b is None) else False)
     return None
